@@ -106,7 +106,7 @@ Ltac ho_leaf :=
       end ].
 
 Lemma bool_of_ho : forall st (r : res bool) neg, post (tpost heap_only st) (rbind r (fun x => Ok (VBool (xorb neg x), st))).
-Proof. intros st r neg. destruct r; cbn; auto. apply ho_refl. Qed.
+Proof. intros st r neg. unfold rbind. destruct r; [apply ho_refl|exact I|exact I]. Qed.
 
 Lemma apply_bin_ho : forall fuel o a b st, post (tpost heap_only st) (apply_bin Asp fuel o a b st).
 Proof.
@@ -229,3 +229,392 @@ Proof.
   destruct obj; try discriminate H; destruct idx; try discriminate H; inv_res H; apply Ok_inj in H; rewrite <- H;
     unfold arr_write, dict_store, heap_only; cbn; repeat split.
 Qed.
+
+(* ---------------------------------------------------------------- the evaluator *)
+Section Scopes.
+Variable defs : list (str * prog).
+
+Definition cachedall (st : state) : Prop := forall label, assoc_get label (subcache st) = None -> find_def defs label = None.
+
+Lemma cached_sc : forall st st', cachedall st -> sc st st' -> cachedall st'.
+Proof. intros st st' H S label Hl. apply H. rewrite <- (sc_sub _ _ S). exact Hl. Qed.
+
+Notation spost := (tpost sc).
+Notation sbind := (t_bind sc sc_trans).
+Notation sret := (t_ret sc sc_refl).
+
+Lemma apply_bin_sc : forall fuel o a b st, post (spost st) (apply_bin Asp fuel o a b st).
+Proof. intros. eapply tpost_weaken; [apply ho_sc|apply apply_bin_ho]. Qed.
+
+Definition E_sc (f : nat) : Prop := forall e st, cachedall st -> post (spost st) (eval_expr Asp defs f e st).
+Definition V_sc (f : nat) : Prop := forall x st, cachedall st -> post (spost st) (eval_vexpr Asp defs f x st).
+Definition C_sc (f : nat) : Prop := forall fn name args st, cachedall st -> post (spost st) (call_value Asp defs f fn name args st).
+Definition R_sc (f : nat) : Prop := forall id bound st, cachedall st -> post (spost st) (run_func Asp defs f id bound st).
+Definition B_sc (f : nat) : Prop := forall ss st, cachedall st -> post (spost st) (exec_block Asp defs f ss st).
+Definition S_sc (f : nat) : Prop := forall s0 st, cachedall st -> post (spost st) (exec_stmt Asp defs f s0 st).
+
+(* the operator chain *)
+Section ChainSc.
+  Variable fuel : nat.
+  Variable evalx : vexpr -> state -> res (value * state).
+  Variable un : unop -> value -> state -> res value.
+  Variable tr : value -> state -> bool.
+  Hypothesis evalx_sc : forall x st, cachedall st -> post (spost st) (evalx x st).
+
+  Lemma lift_un_sc : forall u obj st, post (spost st) (lift_un un u obj st).
+  Proof. intros. unfold lift_un, rbind. destruct (un u obj st); [apply sret|exact I|exact I]. Qed.
+
+  Lemma recheck_sc : forall obj st0 st1 st (k : res (value * state)), post (spost st) k -> post (spost st) (recheck tr obj st0 st1 k).
+  Proof. intros. unfold recheck. destruct (Bool.eqb _ _); [assumption|exact I]. Qed.
+
+  Lemma interp_op_x_sc : forall i obj st, cachedall st ->
+    post (spost st) (interp_op_x evalx (apply_bin Asp fuel) un tr obj i st).
+  Proof.
+    intros i obj st Hc. destruct i as [o x|u]; cbn [interp_op_x]; [|apply lift_un_sc].
+    assert (Hstrict : post (spost st) (rbind (evalx x st) (fun '(r, st1) => apply_bin Asp fuel o obj r st1))).
+    { eapply sbind; [apply evalx_sc; auto|]. intros r st1 H1. cbv beta match. apply apply_bin_sc. }
+    destruct o; try exact Hstrict.
+    - destruct (Bool.eqb _ _); [|apply sret]. eapply sbind; [apply evalx_sc; auto|]. intros r st1 H1. cbv beta match. apply recheck_sc. apply sret.
+    - destruct (Bool.eqb _ _); [|apply sret]. eapply sbind; [apply evalx_sc; auto|]. intros r st1 H1. cbv beta match. apply recheck_sc. apply sret.
+  Qed.
+
+  Lemma interp_op_v_sc : forall obj o n st0 st, post (spost st) (interp_op_v (apply_bin Asp fuel) tr obj o n st0 st).
+  Proof.
+    intros. unfold interp_op_v. destruct o; try apply apply_bin_sc.
+    - apply recheck_sc. destruct (Bool.eqb _ _); apply sret.
+    - apply recheck_sc. destruct (Bool.eqb _ _); apply sret.
+  Qed.
+
+  Lemma flat_ops_sc : forall (ops : list (item vexpr)) obj st, cachedall st ->
+    post (spost st) (flat_ops evalx (apply_bin Asp fuel) un tr obj ops st).
+  Proof.
+    induction ops as [|i0 rest IH]; intros obj st Hc.
+    - cbn. apply sret.
+    - destruct rest as [|i1 rest'].
+      + cbn [flat_ops]. apply interp_op_x_sc; auto.
+      + cbn [flat_ops]. destruct (aprec (ikey i0) >=? aprec (ikey i1))%Z.
+        * eapply sbind; [apply interp_op_x_sc; auto|]. intros r st1 H1. cbv beta match. apply IH. eapply cached_sc; eauto.
+        * destruct (alazy (ikey i0) && _)%bool; [apply sret|]. destruct i0 as [o x|u].
+          -- eapply sbind; [apply evalx_sc; auto|]. intros r0 st1 H1. cbv beta match.
+             eapply sbind; [apply IH; eapply cached_sc; eauto|]. intros n st2 H2. cbv beta match. apply interp_op_v_sc.
+          -- eapply sbind; [apply IH; auto|]. intros r st1 H1. cbv beta match. apply lift_un_sc.
+  Qed.
+End ChainSc.
+
+Lemma chain_sc : forall fuel evalx ops obj st,
+  (forall x st, cachedall st -> post (spost st) (evalx x st)) -> cachedall st ->
+  post (spost st) (chain Asp evalx fuel obj ops st).
+Proof. intros. unfold chain. apply flat_ops_sc; auto. Qed.
+
+Lemma step_E_sc : forall f, E_sc f -> V_sc f -> E_sc (S f).
+Proof.
+  intros f IHE IHV e st Hc. destruct e as [v ops iff]. simpl.
+  assert (Hmain : forall st0, cachedall st0 ->
+            post (spost st0)
+              (rbind (eval_vexpr Asp defs f v st0)
+                 (fun '(obj, st1) => match ops with [] => Ok (obj, st1) | _ :: _ => chain Asp (eval_vexpr Asp defs f) f obj ops st1 end))).
+  { intros st0 C0. eapply sbind; [apply IHV; auto|]. intros obj st1 H1. cbv beta match.
+    destruct ops; [apply sret|]. apply chain_sc; [exact IHV|eapply cached_sc; eauto]. }
+  destruct iff as [[c e2]|]; [|apply Hmain; auto].
+  eapply sbind; [apply IHE; auto|]. intros cv st1 H1. cbv beta match. pose proof (cached_sc _ _ Hc H1) as C1.
+  destruct (truthy Asp st1 cv); [apply Hmain; auto|apply IHE; auto].
+Qed.
+
+Lemma s_mapM : forall {A B} (g : A -> state -> res (B * state)) l st,
+  (forall x st0, cachedall st0 -> post (spost st0) (g x st0)) -> cachedall st -> post (spost st) (mapM g l st).
+Proof.
+  intros A B g. induction l as [|x r IH]; intros st Hg Hc; cbn [mapM]; [apply sret|].
+  eapply sbind; [apply Hg; auto|]. intros y st1 H1. cbv beta match.
+  eapply sbind; [apply IH; [exact Hg|eapply cached_sc; eauto]|]. intros ys st2 H2. cbv beta match. apply sret.
+Qed.
+
+Lemma ho_step : forall st st', heap_only st st' -> forall {A} (a : A), post (spost st) (Ok (a, st')).
+Proof. intros st st' H A a. cbn. apply ho_sc. exact H. Qed.
+
+Lemma new_list_sc : forall items st, post (spost st) (Ok (new_list items st)).
+Proof. intros. unfold new_list, alloc_list. apply ho_step. repeat split. Qed.
+
+Lemma comp_wrap : forall st1 st3, sc (set_locals ([] :: locals st1) st1) st3 -> sc st1 (set_locals (tl (locals st3)) st3).
+Proof.
+  intros st1 st3 [H1 H2 H3 H4]. cbn [cur locals subcache fscopes set_locals] in *. constructor; cbn [cur locals subcache fscopes set_locals]; auto.
+  - destruct (locals st3); cbn in *; [discriminate H2|]. injection H2 as H2. exact H2.
+  - intros j _. apply H4. left. discriminate.
+Qed.
+
+Lemma func_wrap : forall st2 st4 full c, sc (set_locals [full] (set_cur c st2)) st4 ->
+  sc st2 (set_locals (locals st2) (set_cur (cur st2) st4)).
+Proof.
+  intros st2 st4 full c [H1 H2 H3 H4]. cbn [cur locals subcache fscopes set_locals set_cur] in *.
+  constructor; cbn [cur locals subcache fscopes set_locals set_cur]; auto.
+  intros j _. apply H4. left. discriminate.
+Qed.
+
+Lemma step_V_sc : forall f, E_sc f -> V_sc f -> C_sc f -> V_sc (S f).
+Proof.
+  intros f IHE IHV IHC x st Hc. destruct x; simpl; try apply sret.
+  - (* XList *)
+    eapply sbind; [apply s_mapM; [intros; apply IHE; auto|auto]|]. intros vs st1 H1. cbv beta match. apply new_list_sc.
+  - (* XComp *)
+    eapply sbind; [apply IHE; auto|]. intros itv st1 H1. cbv beta match. pose proof (cached_sc _ _ Hc H1) as C1.
+    apply post_bind_pure. intros items _.
+    match goal with |- post _ (if ?c then _ else _) => destruct c end; [exact I|].
+    match goal with |- post _ (rbind (?go _ _ _) _) =>
+      assert (Hgo : forall l acc st0, cachedall st0 -> post (spost st0) (go l acc st0)) end.
+    { induction l as [|li r IH]; intros acc st0 C0; simpl; [apply sret|].
+      apply post_bind_pure. intros st' Hu. pose proof (unpack_names_sc _ _ _ _ Hu) as S1. pose proof (cached_sc _ _ C0 S1) as C'.
+      eapply (t_step sc sc_trans); [exact S1|].
+      eapply sbind.
+      - destruct cond as [c|]; [|apply sret]. eapply sbind; [apply IHE; auto|]. intros cv sx H2. cbv beta match. apply sret.
+      - intros keep st'' H2. cbv beta match. pose proof (cached_sc _ _ C' H2) as C2. destruct keep; [|apply IH; auto].
+        eapply sbind; [apply IHE; auto|]. intros v sy H3. cbv beta match. apply IH. eapply cached_sc; eauto. }
+    assert (C2 : cachedall (set_locals ([] :: locals st1) st1)) by exact C1.
+    pose proof (Hgo items [] _ C2) as Hloop.
+    match goal with |- post _ (rbind ?m _) => destruct m as [[out st3]| |] eqn:Em end; try exact I.
+    cbn [post] in Hloop. unfold tpost in Hloop. apply comp_wrap in Hloop. unfold rbind.
+    match goal with |- post _ (if ?c then _ else _) => destruct c end; [exact I|].
+    eapply (t_step sc sc_trans); [exact Hloop|]. unfold alloc_list. apply ho_step. repeat split.
+  - (* XDict *)
+    eapply sbind.
+    + apply s_mapM; [|auto]. intros [k v] st0 C0. cbn [fst snd].
+      eapply sbind; [apply IHE; auto|]. intros kv st' H1. cbv beta match.
+      eapply sbind; [apply IHE; eapply cached_sc; eauto|]. intros vv st'' H2. cbv beta match. destruct kv; try exact I. apply sret.
+    + intros pairs st1 H1. cbv beta match. unfold alloc_dict. apply ho_step. repeat split.
+  - (* XParen *) apply IHE; auto.
+  - (* XIdent *) destruct (lookup n st); [apply sret|exact I].
+  - (* XCall *) destruct (lookup n st); [|exact I]. apply IHC; auto.
+  - (* XMeth *)
+    eapply sbind; [apply IHV; auto|]. intros obj st1 H1. cbv beta match. pose proof (cached_sc _ _ Hc H1) as C1.
+    assert (Hargs : forall (sg0 : list (str * N * option value)) (l : list expr) st0, cachedall st0 ->
+      post (spost st0)
+        ((fix go (l : list expr) (sg0 : list (str * N * option value)) (st0 : state) : res (list value * state) :=
+            match sg0 with
+            | [] => Ok ([], st0)
+            | (_, t, def) :: sr =>
+                match l with
+                | e :: r => rbind (eval_expr Asp defs f e st0) (fun '(v, st') => rbind (validate t def v) (fun v' =>
+                            rbind (go r sr st') (fun '(vs, st'') => Ok (v' :: vs, st''))))
+                | [] => match def with
+                        | Some dv => rbind (go [] sr st0) (fun '(vs, st'') => Ok (dv :: vs, st''))
+                        | None => Err EType
+                        end
+                end
+            end) l sg0 st0)).
+    { induction sg0 as [|[[a t] def] sr IH]; intros l st0 C0; [apply sret|]. destruct l as [|e r].
+      - destruct def; [|exact I]. eapply sbind; [apply IH; auto|]. intros vs st'' H2. cbv beta match. apply sret.
+      - eapply sbind; [apply IHE; auto|]. intros v st' H2. cbv beta match. apply post_bind_pure. intros v' _.
+        eapply sbind; [apply IH; eapply cached_sc; eauto|]. intros vs st'' H3. cbv beta match. apply sret. }
+    assert (Hcall : forall table,
+      post (spost st1)
+        (if existsb (str_eqb m) table then
+           match method_sig m with
+           | None => Err EUnsupported
+           | Some sg =>
+               if Nat.ltb (length sg) (S (length args)) then Err EType else
+               rbind ((fix go (l : list expr) (sg0 : list (str * N * option value)) (st0 : state) : res (list value * state) :=
+                         match sg0 with
+                         | [] => Ok ([], st0)
+                         | (_, t, def) :: sr =>
+                             match l with
+                             | e :: r => rbind (eval_expr Asp defs f e st0) (fun '(v, st') => rbind (validate t def v) (fun v' =>
+                                         rbind (go r sr st') (fun '(vs, st'') => Ok (v' :: vs, st''))))
+                             | [] => match def with
+                                     | Some dv => rbind (go [] sr st0) (fun '(vs, st'') => Ok (dv :: vs, st''))
+                                     | None => Err EType
+                                     end
+                             end
+                         end) args (tl sg) st1)
+                     (fun '(vals, st2) => native_method Asp f m (obj :: vals) st2)
+           end
+         else if existsb (str_eqb m) (str_methods ++ dict_methods) then Err EType else Err EUnsupported)).
+    { intros table. destruct (existsb (str_eqb m) table); [|destruct (existsb _ _); exact I].
+      destruct (method_sig m) as [sg|]; [|exact I]. destruct (Nat.ltb _ _); [exact I|].
+      eapply sbind; [apply Hargs; auto|]. intros vals st2 H2. cbv beta match.
+      eapply tpost_weaken; [apply ho_sc|apply native_method_ho]. }
+    destruct obj; try exact I; try apply Hcall.
+    + destruct (env_get m (dict_of st1 id)); [exact I|apply Hcall].
+    + destruct (env_get m (dict_of st1 id)); [exact I|apply Hcall].
+  - (* XIndex *)
+    eapply sbind; [apply IHV; auto|]. intros obj st1 H1. cbv beta match.
+    eapply sbind; [apply IHE; eapply cached_sc; eauto|]. intros idx st2 H2. cbv beta match.
+    apply post_bind_pure. intros v _. apply sret.
+  - (* XSlice *)
+    eapply sbind; [apply IHV; auto|]. intros obj st1 H1. cbv beta match. pose proof (cached_sc _ _ Hc H1) as C1.
+    assert (Hoe : forall (o : option expr) st0, cachedall st0 ->
+              post (spost st0)
+                (match o with None => Ok (None, st0) | Some e => rbind (eval_expr Asp defs f e st0) (fun '(v, st') => Ok (Some v, st')) end)).
+    { intros o st0 C0. destruct o as [e|]; [|apply sret]. eapply sbind; [apply IHE; auto|]. intros v st' H'. cbv beta match. apply sret. }
+    eapply sbind; [apply Hoe; auto|]. intros lov st2 H2. cbv beta match. pose proof (cached_sc _ _ C1 H2) as C2.
+    eapply sbind; [apply Hoe; auto|]. intros hiv st3 H3. cbv beta match.
+    eapply tpost_weaken; [apply ho_sc|apply vslice_ho].
+Qed.
+
+Lemma step_B_sc : forall f, B_sc f -> S_sc f -> B_sc (S f).
+Proof.
+  intros f IHB IHS ss st Hc. destruct ss as [|s0 r]; simpl; [apply sret|].
+  eapply sbind; [apply IHS; auto|]. intros res0 st1 H1. cbv beta match.
+  destruct res0; try apply sret. apply IHB. eapply cached_sc; eauto.
+Qed.
+
+Lemma step_R_sc : forall f, E_sc f -> B_sc f -> R_sc (S f).
+Proof.
+  intros f IHE IHB id bound st1 Hc. simpl.
+  match goal with |- post _ (rbind (?go _ _ _) _) =>
+    assert (Hgo : forall l acc st0, cachedall st0 -> post (spost st0) (go l acc st0)) end.
+  { induction l as [|[a df] r IH]; intros acc st0 C0; simpl; [apply sret|].
+    destruct (env_get a acc); [apply IH; auto|]. destruct df as [|v|e]; [exact I|apply IH; auto|].
+    eapply sbind; [apply IHE; auto|]. intros v st' H'. cbv beta match. apply IH. eapply cached_sc; eauto. }
+  eapply sbind; [apply Hgo; auto|]. intros full st2 H2. cbv beta match. pose proof (cached_sc _ _ Hc H2) as C2.
+  match goal with |- post _ (rbind (exec_block _ _ _ ?body ?st3) _) =>
+    pose proof (IHB body st3 C2) as Hb; destruct (exec_block Asp defs f body st3) as [[r st4]| |] eqn:Eb end; try exact I.
+  cbn [post] in Hb. unfold tpost in Hb. apply func_wrap in Hb. unfold rbind. destruct r; cbn [post]; exact Hb.
+Qed.
+
+
+Lemma step_C_sc : forall f, E_sc f -> R_sc f -> C_sc (S f).
+Proof.
+  intros f IHE IHR fn name args st Hc. destruct fn; simpl; try exact I.
+  - (* a function defined by def *)
+    match goal with |- post _ (rbind (?go _ _ _ _) _) =>
+      assert (Hgo : forall l i acc st0, cachedall st0 -> post (spost st0) (go l i acc st0)) end.
+    { induction l as [|[[k|] e] r IH]; intros i acc st0 C0; simpl; [apply sret| |].
+      - destruct (existsb _ _); [|exact I]. eapply sbind; [apply IHE; auto|]. intros v st' H'. cbv beta match. apply IH. eapply cached_sc; eauto.
+      - destruct (Nat.leb _ _); [exact I|]. eapply sbind; [apply IHE; auto|]. intros v st' H'. cbv beta match. apply IH. eapply cached_sc; eauto. }
+    eapply sbind; [apply Hgo; auto|]. intros bound st1 H1. cbv beta match. apply IHR. eapply cached_sc; eauto.
+  - (* a builtin *)
+    destruct (native_sig n) as [[sg varargs]|].
+    + match goal with |- post _ (rbind (?go _ _ _ _ _) _) =>
+        assert (Hgo : forall l i slots extra st0, cachedall st0 -> post (spost st0) (go l i slots extra st0)) end.
+      { induction l as [|[[k|] e] r IH]; intros i slots extra st0 C0; simpl; [apply sret| |].
+        - match goal with |- post _ (match ?x with _ => _ end) => destruct x as [j|] end; [|exact I].
+          destruct (nth j sg ([], 0%N, None)) as [[a t] def].
+          eapply sbind; [apply IHE; auto|]. intros v st' H'. cbv beta match. apply post_bind_pure. intros v' _. apply IH. eapply cached_sc; eauto.
+        - destruct (Nat.leb _ _).
+          + destruct varargs; [|exact I]. eapply sbind; [apply IHE; auto|]. intros v st' H'. cbv beta match. apply IH. eapply cached_sc; eauto.
+          + destruct (nth i sg ([], 0%N, None)) as [[a t] def].
+            eapply sbind; [apply IHE; auto|]. intros v st' H'. cbv beta match. apply post_bind_pure. intros v' _. apply IH. eapply cached_sc; eauto. }
+      eapply sbind; [apply Hgo; auto|]. intros [filled extra] st1 H1. cbv beta match.
+      apply post_bind_pure. intros vals _. eapply tpost_weaken; [apply ho_sc|apply native_ho].
+    + destruct (_ || _)%bool; [|exact I]. destruct (_ || _)%bool; [exact I|].
+      match goal with |- post _ (rbind (?go _ _ _) _) =>
+        assert (Hgo : forall l ts st0, cachedall st0 -> post (spost st0) (go l ts st0)) end.
+      { induction l as [|[k e] r IH]; intros ts st0 C0; simpl; [apply sret|]. destruct ts as [|t tr]; [apply sret|].
+        eapply sbind; [apply IHE; auto|]. intros v st' H'. cbv beta match. apply post_bind_pure. intros v' _.
+        eapply sbind; [apply IH; eapply cached_sc; eauto|]. intros vs st'' H2. cbv beta match. apply sret. }
+      eapply sbind; [apply Hgo; auto|]. intros vals st1 H1. cbv beta match. pose proof (cached_sc _ _ Hc H1) as C1.
+      destruct (Nat.ltb _ _); [exact I|].
+      destruct (nth 0 vals VNone) as [ | | | | | | | | | | fid | ]; try exact I.
+      apply post_bind_pure. intros l _.
+      assert (Hcall : forall xs st0, cachedall st0 ->
+                post (spost st0)
+                  (if Nat.ltb (length (f_args (nth fid (funcs st0) (Func [] [] [] 0)))) (length xs) then Err EType
+                   else run_func Asp defs f fid (combine (map (@fst _ _) (f_args (nth fid (funcs st0) (Func [] [] [] 0)))) xs) st0)).
+      { intros xs st0 C0. destruct (Nat.ltb _ _); [exact I|]. apply IHR; auto. }
+      destruct (str_eqb n (s "map")).
+      { eapply sbind; [apply s_mapM; [intros; apply Hcall; auto|auto]|]. intros out st2 H2. cbv beta match. apply new_list_sc. }
+      destruct (str_eqb n (s "filter")).
+      { eapply sbind.
+        - apply s_mapM; [|auto]. intros x st0 C0. eapply sbind; [apply Hcall; auto|]. intros r st' H'. cbv beta match. apply sret.
+        - intros keep st2 H2. cbv beta match.
+          destruct (map (@snd _ _) (filter (@fst _ _) keep)) as [|o1 orest]; [apply sret|].
+          match goal with |- post _ (if ?c then _ else _) => destruct c end; [exact I|].
+          unfold alloc_list. apply ho_step. repeat split. }
+      destruct l as [|x r]; [apply sret|].
+      match goal with |- post _ (let '(acc0, rest) := ?p in ?go rest acc0 st1) =>
+        assert (Hgo2 : forall l0 acc st0, cachedall st0 -> post (spost st0) (go l0 acc st0)); [|destruct p as [acc0 rest]; apply Hgo2; auto] end.
+      induction l0 as [|y r0 IH]; intros acc st0 C0; simpl; [apply sret|].
+      eapply sbind; [apply Hcall; auto|]. intros acc' st' H'. cbv beta match. apply IH. eapply cached_sc; eauto.
+Qed.
+
+Lemma step_S_sc : forall f, E_sc f -> C_sc f -> B_sc f -> S_sc (S f).
+Proof.
+  intros f IHE IHC IHB s0 st Hc. destruct s0; simpl; try apply sret.
+  - (* SAssign *)
+    eapply sbind; [apply IHE; auto|]. intros v st1 H1. cbv beta match. cbn [post]. apply set_var_sc.
+  - (* SAug *)
+    destruct (lookup n st) as [old|]; [|exact I].
+    eapply sbind; [apply IHE; auto|]. intros v st1 H1. cbv beta match.
+    eapply sbind; [apply apply_bin_sc|]. intros r st2 H2. cbv beta match. cbn [post]. apply set_var_sc.
+  - (* SIdxAssign *)
+    destruct (lookup n st) as [obj|]; [|exact I].
+    eapply sbind; [apply IHE; auto|]. intros idx st1 H1. cbv beta match.
+    eapply sbind; [apply IHE; eapply cached_sc; eauto|]. intros v st2 H2. cbv beta match.
+    apply post_bind_pure. intros st3 H3. cbn [post]. eapply vindex_assign_sc; eauto.
+  - (* SIdxAug *)
+    destruct (lookup n st) as [obj|]; [|exact I].
+    eapply sbind; [apply IHE; auto|]. intros idx st1 H1. cbv beta match.
+    apply post_bind_pure. intros old _.
+    eapply sbind; [apply IHE; eapply cached_sc; eauto|]. intros v st2 H2. cbv beta match.
+    eapply sbind; [apply apply_bin_sc|]. intros r st3 H3. cbv beta match.
+    apply post_bind_pure. intros st4 H4. cbn [post]. eapply vindex_assign_sc; eauto.
+  - (* SUnpack *)
+    eapply sbind; [apply IHE; auto|]. intros v st1 H1. cbv beta match.
+    destruct names as [|n1 [|n2 nr]]; try exact I. apply post_bind_pure. intros st2 H2. cbn [post]. eapply unpack_names_sc; eauto.
+  - (* SIf *)
+    eapply sbind; [apply IHE; auto|]. intros cv st1 H1. cbv beta match. pose proof (cached_sc _ _ Hc H1) as C1.
+    destruct (truthy Asp st1 cv); [apply IHB; auto|].
+    clear H1 Hc. revert st1 C1. induction elifs as [|[c1 b1] r IH]; intros st1 C1; simpl; [apply IHB; auto|].
+    eapply sbind; [apply IHE; auto|]. intros v1 st' H'. cbv beta match. pose proof (cached_sc _ _ C1 H') as C'.
+    destruct (truthy Asp st' v1); [apply IHB; auto|apply IH; auto].
+  - (* SFor *)
+    eapply sbind; [apply IHE; auto|]. intros itv st1 H1. cbv beta match. pose proof (cached_sc _ _ Hc H1) as C1.
+    apply post_bind_pure. intros items _.
+    clear H1 Hc. revert st1 C1. induction items as [|li r IH]; intros st1 C1; simpl; [apply sret|].
+    apply post_bind_pure. intros st' Hu. pose proof (unpack_names_sc _ _ _ _ Hu) as S1. pose proof (cached_sc _ _ C1 S1) as C'.
+    eapply (t_step sc sc_trans); [exact S1|].
+    eapply sbind; [apply IHB; auto|]. intros r0 st'' H2. cbv beta match.
+    destruct r0; try apply sret. + apply IH. eapply cached_sc; eauto. + apply IH. eapply cached_sc; eauto.
+  - (* SDef *)
+    eapply sbind.
+    + apply s_mapM; [|auto]. intros [a oe] st0 C0. cbn [fst snd]. destruct oe as [e|]; [|apply sret].
+      destruct (is_const 32 e); [|apply sret].
+      eapply sbind; [eapply tpost_weaken; [apply ho_sc|apply const_alloc_ho]|]. intros v st' H'. cbv beta match. apply sret.
+    + intros formals st1 H1. cbv beta match. cbn [post].
+      eapply sc_trans; [|apply set_var_sc]. apply ho_sc. repeat split.
+  - (* SReturn *)
+    destruct e as [e|]; simpl; [|apply sret]. eapply sbind; [apply IHE; auto|]. intros v st1 H1. cbv beta match. apply sret.
+  - (* SCall *)
+    destruct (lookup n st) as [fn|]; [|exact I].
+    assert (Hcall : post (spost st) (rbind (call_value Asp defs f fn n args st) (fun '(_, st1) => Ok (RNone, st1)))).
+    { eapply sbind; [apply IHC; auto|]. intros v st1 H1. cbv beta match. apply sret. }
+    destruct fn; try exact Hcall.
+    destruct (str_eqb n0 (s "subinclude")); [|exact Hcall].
+    destruct args as [|[[k|] [[ | lbl | | | | | | | | | | | | | ] [|? ?] [?|]]] [|? ?]]; try exact I.
+    destruct (assoc_get lbl (subcache st)) as [globals|] eqn:Eg; [|rewrite (Hc lbl Eg); exact I].
+    cbn [post]. apply set_vars_sc.
+  - (* SAssert *)
+    eapply sbind; [apply IHE; auto|]. intros v st1 H1. cbv beta match. destruct (truthy Asp st1 v); [apply sret|exact I].
+Qed.
+
+Record sc_specs (f : nat) : Prop := mkScSpecs {
+  ss_E : E_sc f; ss_V : V_sc f; ss_C : C_sc f; ss_R : R_sc f; ss_B : B_sc f; ss_S : S_sc f }.
+
+Theorem all_sc : forall f, sc_specs f.
+Proof.
+  induction f as [|f IH].
+  - constructor; intro; intros; exact I.
+  - destruct IH as [HE HV HC HR HB HS]. constructor.
+    + apply step_E_sc; auto.
+    + apply step_V_sc; auto.
+    + apply step_C_sc; auto.
+    + apply step_R_sc; auto.
+    + apply step_B_sc; auto.
+    + apply step_S_sc; auto.
+Qed.
+
+(* the statements of one BUILD file *)
+Theorem top_sc : forall fuel p st e oof st', cachedall st -> exec_top Asp defs fuel p st = (e, oof, st') -> sc st st'.
+Proof.
+  intros fuel. induction p as [|s0 r IH]; intros st e oof st' Hc H; cbn [exec_top] in H.
+  - injection H as _ _ <-. apply sc_refl.
+  - pose proof (ss_S _ (all_sc fuel) s0 st Hc) as Hs.
+    destruct (exec_stmt Asp defs fuel s0 st) as [[r0 st1]|k|].
+    + cbn [post] in Hs. unfold tpost in Hs. destruct r0.
+      * eapply sc_trans; [exact Hs|]. eapply IH; [eapply cached_sc; eauto|exact H].
+      * injection H as _ _ <-. exact Hs.
+      * injection H as _ _ <-. exact Hs.
+      * injection H as _ _ <-. exact Hs.
+    + injection H as _ _ <-. apply sc_refl.
+    + injection H as _ _ <-. apply sc_refl.
+Qed.
+
+End Scopes.
